@@ -205,7 +205,15 @@ WRITER_ONLY = {
     'fhiaims': (lambda manip, sort, x: sort.sort_basis(manip.uncontract_spdf(manip.uncontract_general(x, True), 0, False), False),
                 'fhi_write_all', lambda b, pb: [b['name'], b['function_types'], c03_els(pb), c03_ecps(pb)]),
     'bdf': (lambda manip, sort, x: sort.sort_basis(manip.make_general(x, False, True), False), 'bdf_write_all', lambda b, pb: [c03_els(pb), c03_ecps(pb)]),
+    'acesii': (lambda manip, sort, x: sort.sort_basis(manip.make_general(x, False, True), False), 'acesii_write_all',
+               lambda b, pb: [b['name'], b['description'], c03_els(pb), c03_ecps(pb)]),
+    'crystal': (_g94pipe, 'crystal_write_all', lambda b, pb: [_mels(pb)]),
+    'ricdwrap': (lambda manip, sort, x: sort.sort_basis(manip.make_general(x, False, True), False), 'ricd_write_all', None),
 }
+
+
+def _mels(pb):
+    return [[int(z), el.get('electron_shells'), el.get('ecp_electrons'), el.get('ecp_potentials')] for z, el in pb['elements'].items()]
 
 
 def c03_els(pb):
@@ -228,8 +236,21 @@ def writer_only(ctx, b, label):
         if w[0] != 'ok' or pb[0] != 'ok' or len(w[1]) > 200000:
             ctx.dist['writer-only:%s:not-compared' % fmt] += 1
             continue
+        if fmt == 'ricdwrap':
+            # the order in which Python iterates the set of cartesian letters is read off the text (as for molcas)
+            order = []
+            for line in w[1].splitlines():
+                if line.lower().startswith('cartesian '):
+                    order += [x for x in line.split()[1:] if x not in order]
+            margs = [order, _mels(pb[1])]
+        else:
+            margs = args(b, pb[1])
+        m = ctx.model.call(op, *margs)
+        if m[0] == 'error' and 'NotImpl' in str(m[1]):
+            ctx.dist['writer-only:%s:outside-modelled-fragment' % fmt] += 1      # acesii: a number within 1e-12 of a power of ten
+            continue
         ctx.case((label, fmt + '-writer'), True, fmt + '-writer')
-        ctx.compare(op, ('ok', w[1]), ctx.model.call(op, *args(b, pb[1])), {'kind': fmt + '-writer', 'label': label, 'input': b if len(str(b)) < 15000 else None})
+        ctx.compare(op, ('ok', w[1]), m, {'kind': fmt + '-writer', 'label': label, 'input': b if len(str(b)) < 15000 else None})
 
 
 def work_layout_store(ctx, item):
